@@ -94,8 +94,8 @@ def part1_maps(ck, tier):
         ck.leanchecker("ScrapliProps.C08")
     if obs is None:
         return None
-    _, emap, after, alive = obs
-    total, alive_total, bad = G.compute_total(L, emap, after, alive)
+    _, emap, after, alive, emapC, afterC, aliveC = obs
+    total, alive_total, bad = G.compute_total(L, emap, after, alive, emapC, afterC, aliveC)
     ck.obligations += 2 * len(L.TRANSPORTS)           # mapTotal t, aliveTotal t per transport (generated, decided)
     ck.discharged += len(total) + len(alive_total)
     ck.extra["mapTotal"] = total
@@ -129,6 +129,29 @@ def part1_maps(ck, tier):
         if short(act) != "retFalse":
             ck.violation({"kind": "alive", "atom": ["alive", t, lm, lo], "transport": t, "loss": [lm, lo], "observed": act},
                          f"{t}: isalive() after loss {lm}x{lo} -> {act}", matcher)
+    # the same three tables for the Telnet transports with a control sequence pending (IAC / IAC + verb received, command incomplete)
+    for (c, t, m, o), act in sorted(emapC.items()):
+        if not L.in_domain(t, m, o):
+            continue
+        ck.case(("mapC", c, t, m, o), nontrivial=True, sample={"ctrl": L.CTRLS[c], "transport": t, "method": m, "outcome": o, "act": act},
+                tags=(f"t={t}", f"ctrl={L.CTRLS[c]}", f"m={m}", "act=" + short(act).split(":")[0]))
+        if not act_allowed(act) or (m == "read" and G.loss_out(t, o) and short(act) == "retData"):
+            ck.violation({"kind": "mapC", "atom": ["mapC", L.CTRLS[c], t, m, o], "ctrl": c, "transport": t, "method": m, "outcome": o, "observed": act},
+                         f"{t}.{m} with {L.CTRLS[c]} pending: boundary outcome {o} -> {act}", matcher)
+    for (c, t, lm, lo, m, o), act in sorted(afterC.items()):
+        ck.case(("afterC", c, t, lm, lo, m, o), tags=(f"t={t}", f"ctrl={L.CTRLS[c]}", "post-loss", "act=" + short(act).split(":")[0]))
+        if not act_allowed(act):
+            ck.violation({"kind": "afterC", "atom": ["mapC", L.CTRLS[c], t, m, o], "ctrl": c, "transport": t, "loss": [lm, lo], "method": m, "outcome": o, "observed": act},
+                         f"{t}.{m} after loss {lm}x{lo} met with {L.CTRLS[c]} pending: outcome {o} -> {act}", matcher)
+        if m == "read" and short(act) == "retEmptyBusy":
+            ck.violation({"kind": "busyC", "atom": ["busyC", L.CTRLS[c], t, lm, lo], "ctrl": c, "transport": t, "loss": [lm, lo], "outcome": o, "observed": act},
+                         f"{t}: the session was lost ({lm}x{lo}) strictly inside a Telnet command ({L.CTRLS[c]} pending): every further read returns b'' "
+                         "without yielding to the event loop — the operation timeout can never fire (unbounded busy loop)", matcher)
+    for (c, t, lm, lo), act in sorted(aliveC.items()):
+        ck.case(("aliveC", c, t, lm, lo), tags=(f"t={t}", f"ctrl={L.CTRLS[c]}", "isalive-after-loss"))
+        if short(act) != "retFalse":
+            ck.violation({"kind": "aliveC", "atom": ["aliveC", L.CTRLS[c], t, lm, lo], "ctrl": c, "transport": t, "loss": [lm, lo], "observed": act},
+                         f"{t}: isalive() after loss {lm}x{lo} met with {L.CTRLS[c]} pending -> {act}", matcher)
     # 1c static AST cross-check of the dynamic table
     try:
         smap = G.static_map()
@@ -253,13 +276,17 @@ def part1_programs(ck, tier):
             prog = "".join("W" if k == "write" else "R" for k in ref)
             for k, kind in enumerate(ref):
                 for o in L.DOMAIN[t][kind]:
-                    if o in ("data", "more", "none"):
+                    if o in L.DATA_LIKE or o == "none":
                         continue
                     for after in (("same", "accept") if t in ("telnet", "paramiko", "asyncssh") and kind == "read" else ("same",)):
-                        runs.append((t, op, prog, k, kind, o, after))
+                        runs.append((t, op, prog, k, kind, o, after, 0))
+                    if t in L.TELNETS and kind == "read":
+                        # the device drops the session strictly inside a Telnet command: IAC / IAC + verb arrive, then the loss
+                        for pend in (1, 2):
+                            runs.append((t, op, prog, k, kind, o, "same", pend))
     lines, results = [], []
-    for t, op, prog, k, kind, o, after in runs:
-        link = L.Link(t, device=CliDevice("cisco_iosxe"), fault=(k, kind, o), after=after)
+    for t, op, prog, k, kind, o, after, pend in runs:
+        link = L.Link(t, device=CliDevice("cisco_iosxe"), fault=(k, kind, o, pend), after=after)
         t0 = time.time()
         with L.patched(link):
             conn = L.make_real_conn(t, link, timeout_ops=0.3)
@@ -280,24 +307,33 @@ def part1_programs(ck, tier):
         dflt = L.post_read(t, kind, o)[0] if L.is_loss(t, kind, o) else "data"
         link.lost = link.lost or (kind, o)
         dw = link._postloss("write") if L.is_loss(t, kind, o) else "data"
-        lines.append(f"run {t} 1 {prog} 40 {','.join(['data'] * k + [o])} {dflt} {dw}")
+        # the model sees the pending control bytes as the suffix of the last chunk read before (same transport state when the loss arrives)
+        envl = ["data"] * k + [o]
+        c0 = 0
+        if pend:
+            prev = [j for j in range(k) if prog[j] == "R"]
+            if prev:
+                envl[prev[-1]] = "dataIac" if pend == 1 else "dataIacVerb"
+            else:
+                c0 = pend
+        lines.append(f"runc {t} 1 {prog} 40 {','.join(envl)} {dflt} {dw} {c0}")
     try:
         mout = run_model("C08", lines)
     except Exception as e:
         ck.proof_broken("model driver Drv/C08.lean (run)", repr(e))
         mout = None
-    for idx, ((t, op, prog, k, kind, o, after), (r, alive, nxt, last_call)) in enumerate(zip(runs, results)):
+    for idx, ((t, op, prog, k, kind, o, after, pend), (r, alive, nxt, last_call)) in enumerate(zip(runs, results)):
         obs = "done" if r[0] == "ok" else short(L.classify_exc(r[1]))
         obs_next = "done" if nxt[0] == "ok" else short(L.classify_exc(nxt[1]))
-        case = {"kind": "prog", "transport": t, "op": op, "program": prog, "fault": [k, kind, o], "after_policy": after,
+        case = {"kind": "prog", "transport": t, "op": op, "program": prog, "fault": [k, kind, o, pend], "after_policy": after,
                 "observed": obs if r[0] == "ok" else L.classify_exc(r[1]), "isalive": repr(alive[1]), "next": obs_next}
-        ck.case(("prog", t, op, k, kind, o, after), sample=case, tags=(f"t={t}", f"op={op}", f"fault={kind}:{o}", "out=" + obs))
+        ck.case(("prog", t, op, k, kind, o, after, pend), sample=case, tags=(f"t={t}", f"op={op}", f"fault={kind}:{o}", "out=" + obs, f"pending-ctrl={pend}"))
         # oracle
         if obs not in ALLOWED:
             if obs == "done" and kind == "write":
                 pass          # a write the library still accepted, nothing read afterwards: not detectable inside this operation
             else:
-                atom = ["busy", t, kind, o] if obs == "hang" else ["map", t, kind, o]
+                atom = (["busy", t, kind, o] if obs == "hang" else ["map", t, kind, o]) + ([f"pend{pend}"] if pend else [])
                 ck.violation({**case, "atom": atom}, f"{t} {op}: {kind} #{k} meets {o} -> operation ends with {case['observed']}", matcher)
                 continue
         if obs != "done" and L.sets_loss(t, o) and not (alive[0] == "ok" and alive[1] is False):
@@ -328,6 +364,43 @@ def part1_programs(ck, tier):
             else:
                 ck.disagree("channel programs (Loss.lean run) vs real channel over real transport", case, f"impl={got} model={want}")
     ck.extra["program_cases_real_transports"] = len(runs)
+
+
+# ---------------------------------------------------------------------------------------------------
+def part1_telnet_streams(ck, tier):
+    """BOTH real Telnet transports on fakes at the socket / StreamReader boundary, a scripted Telnet session — option negotiation
+    commands interleaved with the login dialogue, echo and command output — lost (EOF or reset) after EVERY byte offset, also
+    strictly inside a 3-byte command (after IAC, after IAC + verb); login (real in-channel authentication) and post-login
+    operations.  Runs in a killable worker process.  Oracle only (the states involved are in the model through the ctrl rows)."""
+    from harness import c08rigs as R
+    from vlib.common import REPO
+    n = len(R.telnet_stream())
+    inside = set(R.iac_offsets())
+    cases = [(t, o, k) for t in ("telnet", "asynctelnet") for o in ("empty", "reset") for k in range(0, n + 2)]
+    try:
+        results = R.run_stream_cases(str(REPO), cases)
+    except Exception as e:
+        raise RigError(f"telnet stream worker: {e!r}")
+    nores = [c for c, r in zip(cases, results) if r is None or (r["res"] is None and not r["killed"])]
+    if len(nores) > len(cases) // 10:
+        r0 = next(r for r in results if r is None or r["res"] is None)
+        raise RigError(f"{len(nores)} of {len(cases)} telnet stream cases gave no result: {(r0 or {}).get('err', '')}")
+    for (t, o, k), r in zip(cases, results):
+        if r is None or (r["res"] is None and not r["killed"]):
+            ck.extra["stream_cases_without_result"] = ck.extra.get("stream_cases_without_result", 0) + 1
+            continue
+        r = dict(r, spec={"rig": t, "mode": o, "offset": k})
+        v = R.judge(r, hard_limit=20.0)
+        ops = r["res"]["ops"]
+        first = next((x for x in ops if not x["ok"]), None)
+        ck.case(("stream", t, o, k), nontrivial=v is not None, sample={"transport": t, "loss": o, "offset": k, "ops": ops},
+                tags=(f"t={t}", "telnet-stream", "cut-inside-iac" if k in inside else "cut-elsewhere", f"streamloss={o}",
+                      "stream:" + ("hang" if r["killed"] else "completed" if v is None else f"{first['op']}->{first['exc']}")))
+        for atom, text in (v or []):
+            ck.violation({"kind": "stream", "atom": ["stream"] + atom[:1] + [t], "transport": t, "loss": o, "offset": k, "inside_command": k in inside, "ops": ops},
+                         f"telnet session lost ({o}) after byte {k}" + (" — strictly inside an IAC command" if k in inside else "") + ": " + text, matcher)
+    ck.extra["telnet_stream_cases"] = len(cases)
+    ck.extra["telnet_stream_offsets_inside_commands"] = sorted(inside)
 
 
 # ---------------------------------------------------------------------------------------------------
@@ -366,7 +439,7 @@ class LoginDevice:
 SIM_OPS = ["open", "open_auth_telnet", "open_auth_ssh", "get_prompt", "send_command", "send_configs", "send_interactive", "close"]
 
 
-def sim_build(platform, stack, op, faults=None):
+def sim_build(platform, stack, op, faults=None, lock=False):
     from harness.simdevice import CliDevice
     from harness.simtransport import make_conn
     dev = CliDevice(platform)
@@ -379,7 +452,12 @@ def sim_build(platform, stack, op, faults=None):
     elif op == "open_auth_ssh":
         device = LoginDevice(dev, "ssh")
         kw = dict(transport="system", auth_bypass=False, auth_username="admin", auth_password="pw")
+    if lock:
+        kw["channel_lock"] = True
     conn, t = make_conn(platform, device, stack=stack, faults=faults, **kw)
+    if lock:
+        from harness.libfakes import guard_channel_lock
+        guard_channel_lock(conn)        # a lock left held makes the next acquire raise LockHang instead of blocking for ever
     conn._c08_prompt = dev.prompt().decode().split("\n")[-1]
     # count every transport.read()/write() the channel makes (the sim's trace does not record a write refused on a dead session)
     t.ncalls = 0
@@ -431,11 +509,11 @@ def part2_sim(ck, tier):
     AC.asyncio = proxy
     lines, meta = [], []
     try:
-        for platform, stack, op in itertools.product(PLATFORMS, ("sync", "async"), SIM_OPS):
+        for platform, stack, op, lock in itertools.product(PLATFORMS, ("sync", "async"), SIM_OPS, (False, True)):
             if op == "open_auth_ssh" and stack == "async":
                 continue        # no asyncio transport authenticates in the channel as ssh
             # reference run
-            conn, t = sim_build(platform, stack, op)
+            conn, t = sim_build(platform, stack, op, lock=lock)
             auth_span = [None, None]
             if op == "open_auth_telnet" and stack == "sync":
                 inner = conn.channel.channel_authenticate_telnet
@@ -469,13 +547,16 @@ def part2_sim(ck, tier):
                     if not prog.endswith(c):
                         prog += c
             positions = [("write", k) for k in range(1, nw + 1)] + [("byte", n) for n in range(0, nb + 1)]
+            if tier == "quick" and lock:
+                # quick, channel_lock=True: every write, every 2nd byte offset (thorough: all)
+                positions = [p for p in positions if p[0] == "write" or p[1] % 2 == 0]
             if tier == "quick" and len(positions) > 70:
                 # quick: every write, every byte of the first and last 20, every 3rd in between (thorough: all)
                 bytes_ = [p for p in positions if p[0] == "byte"]
                 positions = [p for p in positions if p[0] == "write"] + bytes_[:20] + bytes_[20:-20:3] + bytes_[-20:]
             for kind, pos in positions:
                 fp = FaultPlan(at_write=base_w + pos) if kind == "write" else FaultPlan(after_bytes=base_b + pos)
-                conn, t = sim_build(platform, stack, op)
+                conn, t = sim_build(platform, stack, op, lock=lock)
                 if not op.startswith("open"):
                     L.run_op(conn, "open")
                 t.faults = [fp]
@@ -486,11 +567,12 @@ def part2_sim(ck, tier):
                 ncalls = t.ncalls - c0
                 fired = fp.fired
                 alive = L.run_op(conn, "isalive")
-                nxt = L.run_op(conn, "get_prompt")
-                case = {"kind": "sim", "platform": platform, "stack": stack, "op": op, "fault": [kind, pos],
+                nxt = L.run_op(conn, "get_prompt")           # second operation on the connection
+                nxt3 = L.run_op(conn, "send_command")        # ... and a third
+                case = {"kind": "sim", "platform": platform, "stack": stack, "op": op, "fault": [kind, pos], "channel_lock": lock,
                         "result": "ok" if r[0] == "ok" else L.classify_exc(r[1])}
-                ck.case(("sim", platform, stack, op, kind, pos), nontrivial=fired, sample=case,
-                        tags=(f"platform={platform}", f"stack={stack}", f"op={op}", f"faultkind={kind}", "fired" if fired else "not-reached",
+                ck.case(("sim", platform, stack, op, kind, pos, lock), nontrivial=fired, sample=case,
+                        tags=(f"platform={platform}", f"stack={stack}", f"op={op}", f"faultkind={kind}", "fired" if fired else "not-reached", f"channel_lock={lock}",
                               "result=" + (case["result"].split(":")[1] if ":" in case["result"] else case["result"])))
                 # ---- oracle
                 if r[0] == "exc" and isinstance(r[1], L.Starved):
@@ -508,8 +590,19 @@ def part2_sim(ck, tier):
                 if fired and not (alive[0] == "ok" and alive[1] is False):
                     ck.violation({**case, "isalive": repr(alive[1])}, f"{op}: isalive() after the drop -> {alive[1]!r}", matcher)
                     continue
+                hung = next((i for i, x in ((2, nxt), (3, nxt3)) if x[0] == "exc" and isinstance(x[1], (L.LockHang, L.Starved, SimStall))), None)
+                if hung is not None:
+                    why = ("blocks for ever on the channel lock that the interrupted operation left held" if isinstance((nxt, nxt3)[hung - 2][1], L.LockHang)
+                           else "never ends")
+                    ck.violation({**case, "history": [op, "get_prompt", "send_command"][:hung], "hangs": ["get_prompt", "send_command"][hung - 2]},
+                                 f"{op} interrupted by the drop, then operation #{hung} on the same connection ({['get_prompt', 'send_command'][hung - 2]}) {why} "
+                                 f"(channel_lock={lock}) instead of raising a scrapli error", matcher)
+                    continue
                 if not (nxt[0] == "exc" and exc_allowed(nxt[1])):
                     ck.violation({**case, "next": repr(nxt[1])}, f"{op}: a further operation on the dead connection -> {nxt[1]!r}", matcher)
+                    continue
+                if not (nxt3[0] == "exc" and exc_allowed(nxt3[1])):
+                    ck.violation({**case, "third": repr(nxt3[1])}, f"{op}: the third operation on the dead connection -> {nxt3[1]!r}", matcher)
                     continue
                 # ---- model request: the outcomes the sim delivered, call by call
                 env = []
@@ -523,15 +616,18 @@ def part2_sim(ck, tier):
                 lines.append(f"run sim 1 {prog} 100000 {','.join(env) or '.'} eof eof")
                 meta.append((case, r, ncalls, alive, nxt, fired, op))
         # never-opened connections
-        for platform, stack in itertools.product(PLATFORMS, ("sync", "async")):
+        for platform, stack, lock in itertools.product(PLATFORMS, ("sync", "async"), (False, True)):
             for op in ("get_prompt", "send_command", "send_configs", "send_interactive", "close"):
-                conn, t = sim_build(platform, stack, op)
+                conn, t = sim_build(platform, stack, op, lock=lock)
                 r = sim_do(conn, op)
                 alive = L.run_op(conn, "isalive")
-                case = {"kind": "never-opened", "platform": platform, "stack": stack, "op": op, "result": "ok" if r[0] == "ok" else L.classify_exc(r[1])}
-                ck.case(("never", platform, stack, op), sample=case, tags=("never-opened", f"op={op}", f"stack={stack}"))
+                r2 = sim_do(conn, op)           # and again: the failed attempt must not leave anything (a lock) behind
+                case = {"kind": "never-opened", "platform": platform, "stack": stack, "op": op, "channel_lock": lock, "result": "ok" if r[0] == "ok" else L.classify_exc(r[1])}
+                ck.case(("never", platform, stack, op, lock), sample=case, tags=("never-opened", f"op={op}", f"stack={stack}", f"channel_lock={lock}"))
                 if not (r[0] == "exc" and exc_allowed(r[1])):
                     ck.violation(case, f"never-opened connection: {op} -> {r[1]!r} (not a ScrapliException)", matcher)
+                elif not (r2[0] == "exc" and exc_allowed(r2[1])):
+                    ck.violation({**case, "second": L.classify_exc(r2[1]) if r2[0] == "exc" else "ok"}, f"never-opened connection: the second {op} -> {r2[1]!r}", matcher)
                 elif not (alive == ("ok", False)):
                     ck.violation(case, f"never-opened connection: isalive() -> {alive[1]!r}", matcher)
                 lines.append("run sim 0 WR 100000 . data data")
@@ -600,15 +696,20 @@ def run(tier, seed):
     load_own_findings(ck)
     _FINDINGS = ck.findings
     _ACTIVE.clear()
-    ck.rule = ("(1) error maps: every (transport, method, boundary outcome) — 6 transports x 8 methods x 13 outcomes — injected into the REAL "
+    ck.rule = ("(1) error maps: every (transport, method, boundary outcome) — 6 transports x 8 methods x 17 outcomes, and for both Telnet transports again "
+               "with a control sequence pending (IAC / IAC+verb received: chunks that end strictly inside a 3-byte command) — injected into the REAL "
                "transport through fakes of socket / asyncio streams / pty fileobj+waitpid / paramiko / asyncssh; post-loss pairs (loss, then "
                "every in-domain call) and isalive() after each loss; scripted method sequences of length <= 2 (quick) / 3 (thorough), exhaustive "
                "inside the boundary domain; get_prompt / send_command of a real (Async)GenericDriver over each real transport with a fault at "
-               "every boundary call x every loss outcome. (2) Sim transports: open (plain, telnet login, ssh login), get_prompt, send_command, "
+               "every boundary call x every loss outcome (Telnet: also with IAC / IAC+verb delivered right before the loss); a scripted Telnet session "
+               "(9 negotiation commands interleaved with login dialogue, echo and output; real in-channel login, get_prompt, 2 commands) over BOTH real "
+               "Telnet transports on socket / StreamReader fakes, lost by EOF and by reset after EVERY byte offset incl. the 18 offsets strictly inside a "
+               "command, in a killable worker. (2) Sim transports: open (plain, telnet login, ssh login), get_prompt, send_command, "
                "send_configs, send_interactive, close with the default platform hooks x sync/asyncio x 5 platforms, the session dropped at every "
                "write and every byte offset (quick: every write, first/last 20 offsets, every 3rd in between for long exchanges; thorough: all); "
                "never-opened connections. Non-trivial = a loss/fault was delivered; distinct by (transport|platform, stack, op, position, outcome). "
-               "(3) thorough: real pty child killed / loopback TCP peer FIN or RST / in-process ssh server dropping, at byte offsets.")
+               "(3) thorough: real pty child killed / loopback TCP Telnet device (login + negotiation commands) closing by FIN or RST after every byte "
+               "offset of the session / in-process ssh server dropping, at byte offsets.")
     ck.trusted = ["Lean 4.33.0 kernel; axioms of every theorem audited ⊆ {propext, Classical.choice, Quot.sound}",
                   "tools/harness/libfakes.py: the fakes stand for the libraries (boundary DOMAIN, post-loss behaviour, aliveness primitive are hand-written "
                   "library behaviour; entries marked (*) are re-observed on the real OS / libraries by the thorough rigs)",
@@ -625,6 +726,7 @@ def run(tier, seed):
     if obs is not None:
         part1_sequences(ck, tier)
         part1_programs(ck, tier)
+    part1_telnet_streams(ck, tier)
     part2_sim(ck, tier)
     if tier == "thorough":
         from harness import c08rigs
@@ -634,7 +736,7 @@ def run(tier, seed):
         ck.notes.append("widened: method sequences up to length 3 after a broken proof/correspondence")
         part1_sequences(ck, "thorough")
     ck.exhaustive = True
-    ck.extra["exhaustive_scope"] = ("error maps: all 624 (transport, method, outcome) triples; sequences: all in-domain method sequences up to length "
+    ck.extra["exhaustive_scope"] = ("error maps: all 816 (transport, method, outcome) triples + the Telnet rows for both pending control states; telnet streams: every byte offset; sequences: all in-domain method sequences up to length "
                                    f"{2 if tier == 'quick' else 3}; sim: every write and byte offset of every listed exchange" + (" (long exchanges strided in quick)" if tier == "quick" else ""))
     ck.notes.append("proof over the modelled error maps; PARTIAL — the maps are validated by exhaustive injection at the library boundary, real OS error timing is observed only")
     return ck.finish()
@@ -679,7 +781,7 @@ def replay(path):
         return 0 if ok else 1
     if k in ("sim", "never-opened"):
         from harness.simtransport import FaultPlan
-        conn, t = sim_build(v["platform"], v["stack"], v["op"])
+        conn, t = sim_build(v["platform"], v["stack"], v["op"], lock=v.get("channel_lock", False))
         if k == "sim":
             if not v["op"].startswith("open"):
                 L.run_op(conn, "open")
@@ -687,10 +789,36 @@ def replay(path):
             t.faults = [FaultPlan(at_write=t.nwrites + pos) if kind == "write" else FaultPlan(after_bytes=t.nbytes + pos)]
         res = sim_do(conn, v["op"])
         alive = L.run_op(conn, "isalive")
-        print(v, "->", res, "isalive", alive)
-        return 0 if (res[0] == "exc" and exc_allowed(res[1]) and alive == ("ok", False)) else 1
+        n2 = L.run_op(conn, "get_prompt") if k == "sim" else sim_do(conn, v["op"])
+        n3 = L.run_op(conn, "send_command") if k == "sim" else n2
+        print(v, "->", res, "isalive", alive, "second", n2, "third", n3)
+        return 0 if (res[0] == "exc" and exc_allowed(res[1]) and alive == ("ok", False) and all(x[0] == "exc" and exc_allowed(x[1]) for x in (n2, n3))) else 1
     if k == "rig":
         from harness import c08rigs
         return c08rigs.replay(v)
+    if k == "stream":
+        from harness import c08rigs as R
+        from vlib.common import REPO
+        r = R.run_stream_cases(str(REPO), [(v["transport"], v["loss"], v["offset"])])[0]
+        r = dict(r, spec={"rig": v["transport"], "mode": v["loss"], "offset": v["offset"]})
+        print(json.dumps(r, indent=1)[:2500])
+        j = R.judge(r, hard_limit=20.0)
+        print("verdict:", j)
+        return 1 if j else 0
+    if k in ("mapC", "afterC", "aliveC", "busyC"):
+        t, pre = v["transport"], L.ctrl_prefix(v["ctrl"])
+        if k == "mapC":
+            seq = pre + [(v["method"], v["outcome"])]
+        elif k == "afterC":
+            seq = pre + [tuple(v["loss"]), (v["method"], v["outcome"])]
+        elif k == "aliveC":
+            seq = pre + [tuple(v["loss"]), ("isalive", None)]
+        else:
+            lo = L.post_read(t, *v["loss"])[0]
+            seq = pre + [tuple(v["loss"]), ("read", lo), ("read", lo)]
+        acts = L.observe_seq(t, seq)
+        print(t, seq, "->", acts)
+        bad = any(not act_allowed(a) for a in acts) or (k == "aliveC" and L.short(acts[-1]) != "retFalse") or (k == "busyC" and L.short(acts[-1]) == "retEmptyBusy")
+        return 1 if bad else 0
     print("nothing to replay in", path)
     return 0
